@@ -2,6 +2,7 @@ import MTfitVerif.Driver.Proto
 import MTfitVerif.Model.LogDomain
 import MTfitVerif.Model.Evidence
 import MTfitVerif.Model.Polarity
+import MTfitVerif.Model.RatioPdf
 /- dispatch table of the executable model -/
 namespace MTfitVerif.Driver
 open MTfitVerif Proto
@@ -82,7 +83,37 @@ def opPolProbPdf : P String := do
   let mts ← vec6s nm; done
   pure (outLPs (Polarity.polarityProbabilityLnPdf sts nl mts).flatten)
 
+/-- `ratiopdf z μx μy σx σy` → density and Hinkley's `c` (conditioning of the exponent) -/
+def opRatioPdf : P String := do
+  let z ← flt; let mx ← flt; let my ← flt; let sx ← flt; let sy ← flt; done
+  pure (outFs [RatioPdf.ratioPdf z mx my sx sy, RatioPdf.coefC mx my sx sy])
+
+/-- `arpdf r μx μy px py` → density and conditioning -/
+def opArPdf : P String := do
+  let r ← flt; let mx ← flt; let my ← flt; let px ← flt; let py ← flt; done
+  let ax := Float.abs mx; let ay := Float.abs my
+  pure (outFs [RatioPdf.arPdf r mx my px py,
+    RatioPdf.coefC ax ay (RatioPdf.errFix px * ax) (RatioPdf.errFix py * ay)])
+
+/-- `arlnpdf nsta nloc nmt (ratio px py cx[nloc×6] cy[nloc×6])×nsta mts[nmt×6]`
+    → `nloc×nmt` log-likelihoods then `nloc×nmt` condition numbers `Σ_s c_s` -/
+def opArLnPdf : P String := do
+  let ns ← nat; let nl ← nat; let nm ← nat
+  let sts ← many ns (do
+    let r ← flt; let px ← flt; let py ← flt; let cx ← vec6s nl; let cy ← vec6s nl
+    pure ({ cx := cx, cy := cy, ratio := r, px := px, py := py } : RatioPdf.ArStation Float))
+  let mts ← vec6s nm; done
+  let out := RatioPdf.amplitudeRatioLnPdf sts nl mts
+  let kappa := (List.range nl).map fun k => mts.map fun mt =>
+    sumL (sts.map fun s =>
+      let ax := Float.abs (dot (s.cx.getD k []) mt); let ay := Float.abs (dot (s.cy.getD k []) mt)
+      RatioPdf.coefC ax ay (RatioPdf.errFix s.px * ax) (RatioPdf.errFix s.py * ay))
+  pure (outLPs out.flatten ++ " " ++ outFs kappa.flatten)
+
 def table : List (String × P String) := [
+  ("ratiopdf", opRatioPdf),
+  ("arpdf", opArPdf),
+  ("arlnpdf", opArLnPdf),
   ("polprob", opPolProb),
   ("polprobp", opPolProbP),
   ("polpdf", opPolPdf),
